@@ -65,6 +65,7 @@ SPECS = {
         ("int32_inv_overflow_like_wrong_dtype", SIMU, "        inv = np.searchsorted(canon, rows.astype(np.int64) * ncol + cols).astype(", "        inv = np.searchsorted(canon, rows.astype(np.int64) * ncol + cols, side='right').astype("),
     ],
     "C04": [
+        ("bc_init_keeps_lagrange_size", SIMU, "        if len(getattr(self, \"_Simu__Bc_Lagrange\", [])) > 0:\n", "        if len(getattr(self, \"_Simu__Bc_Lagrange\", [])) > 1e9:\n"),
         ("orphan_diag_missing", SIMU, "            diag[orphanDofs] = 1.0\n            A = A + sparse.diags(diag, format=\"csr\")", "            diag[orphanDofs] = 0.0\n            A = A + sparse.diags(diag, format=\"csr\")"),
         ("callable_z_is_y", SIMU, "                values_eval[:] = values(coord[:, 0], coord[:, 1], coord[:, 2])", "                values_eval[:] = values(coord[:, 0], coord[:, 1], coord[:, 1])"),
         ("duplicates_last_wins", SIMU, """            x = sparse.csr_matrix(
@@ -170,6 +171,7 @@ SPECS = {
         ("timoshenko_shear_sign_3d", ELBEAM, "            B_e_pg[:, :, 5, idx_ry] += Nu_pg  # +ry", "            B_e_pg[:, :, 5, idx_ry] -= Nu_pg  # +ry"),
     ],
     "C11": [
+        ("walpole_ragged_coefficients", LAWS, "        ci = np.array(np.broadcast_arrays(c1, c2, c3, c4, c5))\n", "        ci = np.array([c1, c2, c3, c4, c5])\n"),
         ("plane_stress_uses_C", LAWS, "                c = np.linalg.inv(s)\n\n            else:", "                c = global_cM[x, :][:, x] if len(shape) == 2 else np.linalg.inv(s)\n\n            else:"),
         ("iso_lambda_plane_stress", LAWS, "            lmbda = E * v / (1 - v**2)\n", "            lmbda = E * v / (1 - v)\n"),
         ("ortho_c13", LAWS, "        return -E1 * E2 * E3 * (v12 * v23 + v13) / self.__get_cij_denominator()", "        return -E1 * E2 * E3 * (v12 * v13 + v23) / self.__get_cij_denominator()"),
@@ -213,6 +215,9 @@ SPECS = {
         ("set_iter_keeps_matrices", SIMU, "        self.__Init_Sols_n()\n\n        self.Need_Update()  # need to reconstruct matrices", "        self.__Init_Sols_n()"),
     ],
     "C15": [
+        ("save_iter_writes_into_caller_dict", R + "Simulations/_elastic.py", "        iter = {} if iter is None else iter.copy()\n\n        iter[\"displacement\"]", "        iter = {} if iter is None else iter\n\n        iter[\"displacement\"]"),
+        ("thermal_save_iter_writes_into_caller_dict", R + "Simulations/_thermal.py", "        iter = {} if iter is None else iter.copy()\n", "        iter = {} if iter is None else iter\n"),
+        ("weakforms_set_iter_requires_rates", R + "Simulations/_weakforms.py", "            v = results.get(\"v\", np.zeros_like(u))\n            self._Set_solutions(self.problemType, u, v)\n", "            v = results[\"v\"]\n            self._Set_solutions(self.problemType, u, v)\n"),
         ("getter_returns_live_array", SIMU, "        arr = self.__dict_u_n[problemType].copy()\n        if not asCsrMatrix:\n            return arr\n        Ndof = self.__Get_Ndof(problemType)\n        rows = np.arange(arr.size, dtype=int)\n        cols = np.zeros_like(rows)\n        return sparse.csr_matrix((arr, (rows, cols)), shape=(Ndof, 1))\n\n    def __Set_u_n", "        arr = self.__dict_u_n[problemType]\n        if not asCsrMatrix:\n            return arr\n        Ndof = self.__Get_Ndof(problemType)\n        rows = np.arange(arr.size, dtype=int)\n        cols = np.zeros_like(rows)\n        return sparse.csr_matrix((arr, (rows, cols)), shape=(Ndof, 1))\n\n    def __Set_u_n"),
         ("set_iter_skips_mesh_switch", SIMU, "        if indexMesh != self.__indexMesh:\n            self.__indexMesh = indexMesh\n            self.__Update_mesh(indexMesh)", "        if indexMesh > self.__indexMesh:\n            self.__indexMesh = indexMesh\n            self.__Update_mesh(indexMesh)"),
         ("disk_entry_follows_folder", SIMU, "            self.__list_results.append(path)\n", "            self.__list_results.append(Folder.os.path.relpath(path, self.folder))\n"),
@@ -226,6 +231,7 @@ SPECS = {
         ("weakforms_v_saved_as_u", R + "Simulations/_weakforms.py", "            iter[\"u\"] = self.u\n            iter[\"v\"] = self.v\n\n        elif", "            iter[\"u\"] = self.u\n            iter[\"v\"] = self.u\n\n        elif"),
     ],
     "C16": [
+        ("phasefield_counters_set_by_solve_only", R + "Simulations/_phasefield.py", "        self.__Niter = 0\n        self.__convIter = 0.0\n        self.__timeIter = 0.0\n", "        pass\n"),
         ("elastic_vy_reads_vx", R + "Simulations/_elastic.py", "        elif result in [\"vx\", \"vy\", \"vz\"]:\n            values_n = self.speed.reshape(Nn, -1)\n            values = values_n[:, self.__indexResult(result)]", "        elif result in [\"vx\", \"vy\", \"vz\"]:\n            values_n = self.speed.reshape(Nn, -1)\n            values = values_n[:, min(self.__indexResult(result), 0)]"),
         ("elastic_accel_norm_of_speed", R + "Simulations/_elastic.py", "        elif result == \"accel_norm\":\n            val_n = self.accel.reshape(Nn, -1)", "        elif result == \"accel_norm\":\n            val_n = self.speed.reshape(Nn, -1)"),
         ("vm3d_shear_factor", MUT, "                    + 6 * (xy**2 + yz**2 + xz**2)", "                    + 3 * (xy**2 + yz**2 + xz**2)"),
